@@ -25,7 +25,7 @@ from .core import ROOT, canon, jhash
 
 ID = 'C12'
 RULE = ('count tables 1..5 x 1..5 (values 1,2,3,5,8,13,40,1000,2^31+7,2^40+1; whole vectors zeroed, single-entry vectors, '
-        'n chosen equal to a vector total in ~40% of the cases, else 1..max total+1) x layout recipe (dense/csr/csc/coo/lists/'
+        'n chosen equal to a vector total in ~40% of the cases, else 1..max total+1; in ~30% of the tables observation and sample ids overlap, fully or partially) x layout recipe (dense/csr/csc/coo/lists/'
         'csr with explicit zeros/csr with reversed indices, then sort_order round trips, transposes, column/row access, nnz, copy) '
         'x axis x {counts without replacement, with replacement, by id, refused arguments} x call form {keywords, positional in the documented order n/axis/by_id/with_replacement/seed, biom.util.generate_subsamples} x seed (recording Generator; the same '
         'call is repeated with the plain integer seed and must give the same table); the arrays the kernel received are replayed '
@@ -452,12 +452,31 @@ def _rand_counts(rng, r, c):
     return M
 
 
+def _share_ids(rng, spec):
+    """observation and sample ids are separate namespaces: in ~30 % of the tables the same strings
+    name vectors on both axes (numeric ids '1','2',... on both; fully or partially, in any order)"""
+    u = rng.random()
+    if u >= 0.3:
+        return
+    r, c = len(spec['oids']), len(spec['sids'])
+    pool = [str(k + 1) for k in range(max(r, c))]
+    if u < 0.15:                       # fully: both axes draw from the same numeric pool
+        spec['oids'] = rng.sample(pool, r)
+        spec['sids'] = rng.sample(pool, c)
+    else:                              # partially: some sample ids are replaced by observation ids
+        take = rng.sample(spec['oids'], min(r, c, rng.randint(1, 3)))
+        pos = rng.sample(range(c), len(take))
+        for k, x in zip(pos, take):
+            spec['sids'][k] = x
+
+
 def gen_case(rng, kind=None, spec=None, axis=None, n=None):
     if spec is None:
         r, c = rng.randint(1, 5), rng.randint(1, 5)
         spec = T.rand_spec(rng, min_r=r, max_r=r, min_c=c, max_c=c, values='counts',
                            md=rng.choice(['none', 'none', 'group', 'text', 'obs', 'samp', 'partial', 'partial']))
         spec['mat'] = _rand_counts(rng, r, c)
+        _share_ids(rng, spec)
     axis = axis or rng.choice(['observation', 'sample'])
     kind = kind or rng.choice(['counts'] * 11 + ['replace'] * 4 + ['by_id'] * 4 + ['refuse'])
     M = _mat(spec)
@@ -551,6 +570,8 @@ def classify(c):
         tags.append('has-single-entry-vector')
     if M.size and M.max() >= 2 ** 31:
         tags.append('large-counts')
+    if set(c['spec']['oids']) & set(c['spec']['sids']):
+        tags.append('ids-shared-between-axes')
     st = _STASH.get(jhash(c))
     if st and 'indptr' in st['seen']:
         p, ind = st['seen']['indptr'], st['seen']['indices']
